@@ -456,6 +456,8 @@ val fold_right : ('a2 -> 'a1 -> 'a1) -> 'a1 -> 'a2 list -> 'a1
 
 val existsb : ('a1 -> bool) -> 'a1 list -> bool
 
+val forallb : ('a1 -> bool) -> 'a1 list -> bool
+
 val find : ('a1 -> bool) -> 'a1 list -> 'a1 option
 
 val repeat : 'a1 -> nat -> 'a1 list
@@ -1808,6 +1810,136 @@ val show_dout : dout option -> byte list
 
 val run_defrag_line : bool -> byte list list -> byte list
 
+val ser_ccs_byte : n
+
+val ser_ty_clienthello : n
+
+val ser_ty_serverhello : n
+
+val ser_ty_serverhello13 : n
+
+val ser_ty_cke_unknown : n
+
+val ser_ty_cke_dh : n
+
+val ser_ty_cke_ecdh : n
+
+val ser_ty_hellorequest : n
+
+val ser_ty_finished : n
+
+val ser_tag_sni : n
+
+val ser_tag_mfl : n
+
+val ser_tag_groups : n
+
+type ser =
+| SerOk of byte list
+| SerNYI
+| SerPanic
+
+val sbind : ser -> (byte list -> ser) -> ser
+
+val scat : ser -> ser -> ser
+
+val sall : ser list -> ser
+
+val length_be_u16 : ser -> ser
+
+val length_be_u24 : ser -> ser
+
+val tagged_extension : n -> ser -> ser
+
+val gen_tls_ext_sni_hostname : (n * slice) -> ser
+
+val gen_tls_extension : tlsExtension -> ser
+
+val gen_tls_extensions : tlsExtension list -> ser
+
+val gen_tls_sessionid : slice option -> byte list
+
+val maybe_extensions : slice option -> byte list
+
+val gen_tls_clienthello : clientHelloC -> ser
+
+val gen_tls_serverhello : serverHelloC -> ser
+
+val gen_tls_serverhellodraft18 : serverHello13C -> ser
+
+val gen_tls_clientkeyexchange : clientKeyExchangeC -> ser
+
+val gen_tls_messagehandshake : tlsMessageHandshake -> ser
+
+val gen_tls_message : tlsMessage -> ser
+
+val gen_tls_plaintext : tlsPlaintext -> ser
+
+val vec8 : byte list -> byte list
+
+val vec16 : byte list -> byte list
+
+val vec24 : byte list -> byte list
+
+val cat : ('a1 -> byte list) -> 'a1 list -> byte list
+
+val enc_sid : slice option -> byte list
+
+val enc_optext : slice option -> byte list
+
+val enc_client_hello : clientHelloC -> byte list
+
+val enc_server_hello : serverHelloC -> byte list
+
+val enc_cert_request : certRequestC -> byte list
+
+val hs_type : tlsMessageHandshake -> n
+
+val enc_hs_body : tlsMessageHandshake -> byte list
+
+val enc_handshake : tlsMessageHandshake -> byte list
+
+val enc_msg : tlsMessage -> byte list
+
+val enc_record : n -> n -> byte list -> byte list
+
+val iana_type : tlsExtension -> n
+
+val enc_ext_content : tlsExtension -> byte list
+
+val enc_ext : tlsExtension -> byte list
+
+val tok_hex : byte list -> byte list
+
+val tok_optslice : byte list -> slice option
+
+val tok_nums : byte list -> n list
+
+val f : byte list list -> nat -> byte list
+
+val read_msg : byte list -> tlsMessage
+
+val read_ext : byte list -> tlsExtension
+
+val show_ser :
+  ser -> (byte list -> byte list) -> (byte list -> ser) -> byte list
+
+val run_ser_line : byte list list -> byte list
+
+val norm_ext_s : slice option -> slice option
+
+val norm_hs_s : tlsMessageHandshake -> tlsMessageHandshake
+
+val norm_msg_s : tlsMessage -> tlsMessage
+
+val sup_msg : tlsMessage -> bool
+
+val enc_msg_ser : tlsMessage -> byte list
+
+val spec_out : byte list -> byte list -> byte list
+
+val spec_ser_line : byte list list -> byte list
+
 val all_entries : (string * entry_fn) list
 
 val find_entry : byte list -> (string * entry_fn) list -> entry_fn option
@@ -1851,34 +1983,6 @@ val gint : n -> n g
 val gslice : n -> slice g
 
 val gopt : 'a1 g -> 'a1 option g
-
-val vec8 : byte list -> byte list
-
-val vec16 : byte list -> byte list
-
-val vec24 : byte list -> byte list
-
-val cat : ('a1 -> byte list) -> 'a1 list -> byte list
-
-val enc_sid : slice option -> byte list
-
-val enc_optext : slice option -> byte list
-
-val enc_client_hello : clientHelloC -> byte list
-
-val enc_server_hello : serverHelloC -> byte list
-
-val enc_cert_request : certRequestC -> byte list
-
-val hs_type : tlsMessageHandshake -> n
-
-val enc_hs_body : tlsMessageHandshake -> byte list
-
-val enc_handshake : tlsMessageHandshake -> byte list
-
-val enc_msg : tlsMessage -> byte list
-
-val enc_record : n -> n -> byte list -> byte list
 
 val grandom32 : slice g
 
@@ -1973,12 +2077,6 @@ val gcase_kx : case list g
 val gcase_ct : case list g
 
 val families_kx : (string * case list g) list
-
-val iana_type : tlsExtension -> n
-
-val enc_ext_content : tlsExtension -> byte list
-
-val enc_ext : tlsExtension -> byte list
 
 val gs8 : slice g
 
